@@ -162,6 +162,42 @@ func tickerBeforeReplay(c *Ctx) {
 	}
 }
 
+// endHeightWindow: finalizeCommit makes the end-height marker of H durable before block H is applied and the state of H is
+// saved. A crash in between leaves state H-1 with the marker of H in the log; the restarted node is at height H again and
+// must learn what it signed there: either the replay of height H is not refused because of the marker, or a start-up path
+// applies the stored block (a handshake) so that the node resumes at H+1. With neither, it starts H afresh and signs again.
+func endHeightWindow(c *Ctx) {
+	fn := c.Fn("consensus", "ConsensusState", "catchupReplay")
+	if fn == nil {
+		return
+	}
+	// (a) is the replay loop reachable when the marker of the current height was found?
+	refuses := false
+	sites := c.P.guardEdges(fn, G("no end-height marker of the current height", False(`^call:iface:\(consensus\.WAL\)\.SearchForEndHeight\(cs\.wal, csHeight, .*\)#1$`)))
+	if len(sites) > 0 {
+		rm := map[edge]bool{}
+		for _, s := range sites {
+			rm[s.Pass] = true
+		}
+		w := &Walker{P: c.P, Removed: rm}
+		_, found := w.Reach(fn, fn.Blocks[0], 0, CallTo(`^\(\*consensus\.ConsensusState\)\.readReplayMessage$`, ""))
+		refuses = !found
+	}
+	// (b) does anything but consensus' own commit and block sync apply a block?
+	handshake := false
+	for _, s := range c.CallSites(`^\(\*kai/state/cstate\.BlockExecutor\)\.ApplyBlock$`) {
+		caller := fnName(rootFn(s.Caller))
+		if strings.HasSuffix(c.P.Pos(instrPos(s.Instr)), "_test.go") {
+			continue
+		}
+		if !re(`^\(\*consensus\.ConsensusState\)\.finalizeCommit$|^\(\*?blockchain\.pContext\)\.applyBlock$`).MatchString(caller) {
+			handshake = true
+		}
+	}
+	c.Check("O", fnName(fn)+"/a crash between the end-height marker and the state save is recovered (the height is replayed despite the marker, or a start-up path applies the stored block)",
+		!refuses || handshake, fn.Pos(), len(sites)+1, "catchupReplay returns an error when the WAL holds #ENDHEIGHT of the height the state is at, OnStart then starts that height without replaying anything, and nothing applies the stored block at start-up: the node has forgotten its own votes of that height and signs again")
+}
+
 func runC05(c *Ctx) {
 	c.Decided = []string{
 		"own (internal-queue) messages are handled only after WriteSync succeeded; peer messages and timeouts are written to the WAL before they are handled; handleMsg is entered only from the receive routine and WAL replay",
@@ -180,6 +216,7 @@ func runC05(c *Ctx) {
 	headStateRules(c)
 	tickerBeforeReplay(c)
 	walFieldRules(c)
+	endHeightWindow(c)
 
 	walAheadRules(c)
 	walDecodeRules(c)
@@ -232,13 +269,23 @@ func runC05(c *Ctx) {
 		s1 := `call:iface:\(consensus\.WAL\)\.SearchForEndHeight\(cs\.wal, csHeight, `
 		dec := CallTo(`^\(\*consensus\.WALDecoder\)\.Decode$`, "")
 		searches := findInstrs(fn, CallTo(`\(consensus\.WAL\)\.SearchForEndHeight$`, ""))
-		c.Check("O", fnName(fn)+"/two end-height searches", len(searches) == 2, fn.Pos(), len(searches), "")
+		// (the sanity check "no marker of the current height" is NOT demanded: it is what turns a crash after the marker
+		// into a restart without replay, see endHeightWindow; a replay that tolerates the marker must pass here)
+		_ = s1
+		c.Check("O", fnName(fn)+"/the end-height marker of the previous height is searched", len(searches) >= 1, fn.Pos(), len(searches), "")
 		c.Guarded(fn, "replay loop (Decode)", dec,
-			G("no #ENDHEIGHT for the current height", False(`^`+s1+`.*\)#1$`)),
-			G("first search error == nil", IsNil(`^`+s1+`.*\)#2$`)),
 			G("csHeight >= InitialHeight", Cmp(`^csHeight$`, ">=", `^cs\.state\.InitialHeight$`)),
 			G("#ENDHEIGHT for the previous height found", True(`^call:iface:\(consensus\.WAL\)\.SearchForEndHeight\(cs\.wal, phi\(.*\), .*\)#1$`)))
-		if len(searches) == 2 {
+		var prevSearch ssa.Instruction
+		for _, sr := range searches {
+			if a := argPaths(callCommon(sr)); len(a) >= 2 && strings.HasPrefix(a[1], "phi(") {
+				prevSearch = sr
+			}
+		}
+		if prevSearch != nil {
+			searches = []ssa.Instruction{nil, prevSearch}
+		}
+		if len(searches) == 2 && searches[1] != nil {
 			a := argPaths(callCommon(searches[1]))
 			ok := len(a) >= 2 && (a[1] == "phi((csHeight - const:1)|const:0)" || a[1] == "phi(const:0|(csHeight - const:1))")
 			c.Check("F", fnName(fn)+"/previous end height is csHeight-1, or 0 at the initial height", ok, instrPos(searches[1]), 1, "second search height: "+a[1])
